@@ -8,7 +8,8 @@ Regenerated from /repo's working tree on every run:
   * the `match &(query.borrow().algebra) { ... }` of `SparqlWrapper::query`: per query form
     `exec.select` / `exec.ask` / NotImplemented;
   * the `Some(_)` arm on `query_dataset.named` in `ExecState::new`;
-  * two switches for the repairs proposed in notes/fixes/: whether `Or`/`And` in
+  * two switches for the repairs of notes/fixes/ (committed in /repo as e4da433 and d984918; the
+    theorems of Props/C13.lean now need both to be `true`, so the old forms break the proofs): whether `Or`/`And` in
     `ArcExpression::eval` still abort on an operand's evaluation error (`eval(..)?.is_truthy()`) or
     fold it into the three-valued table (`eval(..).and_then(|e| e.is_truthy())`,
     notes/fixes/C13-logical-or-and-error.diff), and what `ExecState::graph` does when the dataset
